@@ -65,6 +65,10 @@ namespace world
         long distCalls = 0;
         double cpuBudget = 1e9;
         std::function<void()> onBudgetExhausted;
+        // scheduled (threaded) cases: a simulator yield point on every n-th distance computation, so that a thread can be
+        // preempted in the middle of a nearest-neighbour query (0: none)
+        long distYieldEvery = 0, distSeen = 0;
+        void (*onDistanceYield)() = nullptr;
         std::atomic_flag lock = ATOMIC_FLAG_INIT;
         void onAlloc(const ob::State *s)
         {
@@ -132,6 +136,8 @@ namespace world
         double distance(const ob::State *a, const ob::State *b) const override
         {
             Ledger &l = ledger();
+            if (l.distYieldEvery > 0 && l.onDistanceYield && ++l.distSeen % l.distYieldEvery == 0)
+                l.onDistanceYield();
             if (l.armed && (++l.distCalls & 0x3fff) == 0 && cpuSeconds() > l.cpuBudget)
             {
                 if (l.onBudgetExhausted)
